@@ -115,6 +115,9 @@ void vs_enter(void);
 void vs_leave(void);
 int vs_inside(void);
 
+// Fail the n-th (0-based) parent-side call of function `fn` from now on with
+// ENOMEM (allocation functions only: realloc).
+void vs_fail_nth(int fn, int n);
 void vs_add_fault(struct vs_fault f);
 void vs_clear_faults(void);
 
@@ -128,6 +131,7 @@ void vs_add_viol(const char *fmt, ...);
 int vs_own_open_fds(int *out, int max);
 // Every descriptor the library ever created (pipe/open) in this case.
 int vs_own_ever(int fd);
+void vs_heap_adopt(void *p, size_t n);
 size_t vs_heap_live_blocks(void);
 size_t vs_heap_live_bytes(void);
 // pids returned by fork to the parent and not yet successfully reaped.
